@@ -3,26 +3,27 @@ namespace AgdbDb
 open Db
 
 theorem undoAll_refines : ∀ (cs : List Cmd) (u : Db) (B : ADb), u.SInv → UndoOk cs u.abs B →
-    ∃ r, Db.undoAll cs u = some r ∧ r.abs = B ∧ r.SInv ∧ r.undo = u.undo := by
+    ∃ r, Db.undoAll cs u = some r ∧ r.abs = B ∧ r.SInv ∧ r.undo = u.undo ∧ GReach u.graph r.graph := by
   intro cs
   induction cs with
-  | nil => intro u B hi h; exact ⟨u, rfl, h, hi, rfl⟩
+  | nil => intro u B hi h; exact ⟨u, rfl, h, hi, rfl, GReach.refl _⟩
   | cons c rest ih =>
     intro u B hi h
     obtain ⟨hp, hrest⟩ := h
     obtain ⟨u', hu', habs, hsi, hundo⟩ := undoCmd_refines c u hi hp
+    have hg := undoCmd_greach c u u' hi hp hu'
     rw [← habs] at hrest
-    obtain ⟨r, hr, hra, hrs, hru⟩ := ih u' B hsi hrest
-    exact ⟨r, by simp only [Db.undoAll, hu', hr], hra, hrs, by rw [hru, hundo]⟩
+    obtain ⟨r, hr, hra, hrs, hru, hrg⟩ := ih u' B hsi hrest
+    exact ⟨r, by simp only [Db.undoAll, hu', hr], hra, hrs, by rw [hru, hundo], hg.trans hrg⟩
 
 /-- rollback of any state reached by `Fwd` steps from a committed state restores its abstract view -/
 theorem rollback_of_fwd (s s' : Db) (hu : s.undo = []) (hs : s.Inv) (h : Fwd s s') :
-    ∃ r, s'.rollback = some r ∧ r.abs = s.abs ∧ r.Inv ∧ r.undo = [] := by
-  obtain ⟨hi', cmds, hc, hok⟩ := h
+    ∃ r, s'.rollback = some r ∧ r.abs = s.abs ∧ r.Inv ∧ r.undo = [] ∧ GReach s'.graph r.graph := by
+  obtain ⟨hi', ⟨cmds, hc, hok⟩, _⟩ := h
   rw [hu, List.append_nil] at hc
   have hsi : ({ s' with undo := [] } : Db).SInv := ⟨hi'.sinv.wf, hi'.sinv.kvNodup, hi'.sinv.aliasBij, hi'.sinv.ixNodup⟩
-  obtain ⟨r, hr, hra, hrs, hru⟩ := undoAll_refines cmds { s' with undo := [] } s.abs hsi hok
-  refine ⟨r, by unfold Db.rollback; rw [hc]; exact hr, hra, ⟨hrs, by rw [hra]; exact hs.binv⟩, hru⟩
+  obtain ⟨r, hr, hra, hrs, hru, hrg⟩ := undoAll_refines cmds { s' with undo := [] } s.abs hsi hok
+  refine ⟨r, by unfold Db.rollback; rw [hc]; exact hr, hra, ⟨hrs, by rw [hra]; exact hs.binv⟩, hru, hrg⟩
 
 theorem safe_run (q : MQuery) (hd : match q with
     | .insertNodes _ v _ _ => v.distinct
